@@ -4,6 +4,7 @@
 use std::io::{BufRead, Write};
 
 mod c02;
+mod c03;
 mod c04;
 mod agentkit;
 mod c08;
@@ -55,6 +56,7 @@ fn run_lines() {
             "book" => c02::book(&mut t),
             "needs" => c04::needs(&mut t),
             "members" => c18::members(&mut t),
+            "part" => c03::part(&mut t),
             "ingest" => c10::ingest(&mut t),
             "uni" => c16::uni(&mut t),
             "serve" => c16::serve(&mut t),
